@@ -146,6 +146,44 @@ def run_impl_create(desc, files):
         clear_files(files, d)
 
 
+def share_equal(x, seen=None):
+    """equal non-empty containers of a description become one object, so that the YAML dumper writes an anchor and aliases"""
+    import json
+    seen = {} if seen is None else seen
+    if isinstance(x, dict):
+        x = {k: share_equal(v, seen) for k, v in x.items()}
+    elif isinstance(x, list):
+        x = [share_equal(v, seen) for v in x]
+    else:
+        return x
+    if not x:
+        return x
+    return seen.setdefault(json.dumps(x, sort_keys=False), x)
+
+
+def write_description(desc, path, fmt):
+    """the same description in the text forms users and tools write: compact / indented JSON, escaped / literal non-ASCII, block / flow / mixed YAML,
+    anchors and aliases for repeated parts, LF / CRLF line ends, a document start marker.  The form rotates; every one must give the same envelope."""
+    import json
+    import yaml
+    import zlib
+    form = zlib.crc32(json.dumps(desc, sort_keys=True, default=str).encode()) % 8      # a function of the description: a replay meets the same form
+    if fmt == "json":
+        text = [lambda: json.dumps(desc), lambda: json.dumps(desc, indent=4), lambda: json.dumps(desc, ensure_ascii=False), lambda: json.dumps(desc, indent="\t"),
+                lambda: json.dumps(desc, indent=2).replace("\n", "\r\n"), lambda: json.dumps(desc, separators=(",", ":")), lambda: json.dumps(desc) + "\n",
+                lambda: "\n  " + json.dumps(desc, indent=1, ensure_ascii=False) + "\n\n"][form]()
+    else:
+        dump = lambda **kw: yaml.dump(desc if not kw.pop("share", False) else share_equal(desc), sort_keys=False, **kw)   # noqa: E731
+        text = [lambda: dump(allow_unicode=True), lambda: dump(allow_unicode=False), lambda: dump(allow_unicode=True, default_flow_style=False),
+                lambda: dump(allow_unicode=True, default_flow_style=True), lambda: dump(allow_unicode=True, share=True),
+                lambda: dump(allow_unicode=True, width=1000), lambda: "---\n" + dump(allow_unicode=True, indent=4) + "...\n",
+                lambda: dump(allow_unicode=True, default_style='"')][form]()
+        if form == 2:
+            text = text.replace("\n", "\r\n") if "\r" not in text and "|" not in text and ">" not in text else text
+    with open(path, "w", encoding="utf-8", newline="") as fh:
+        fh.write(text)
+
+
 def run_cli_create(desc, files, fmt, decoy=False):
     """through the CLI entry point cmd_create.main with a real JSON / YAML description file.
     decoy: the description lives in a sub-directory that holds files of the same names with other contents"""
@@ -166,11 +204,7 @@ def run_cli_create(desc, files, fmt, decoy=False):
                     fh.write(bytes(x ^ 0x3C for x in content) + b"decoy")
         inp = os.path.join(cfgdir, "input." + fmt)
     outp = os.path.join(d, "out.suit")
-    with open(inp, "w", encoding="utf-8") as fh:
-        if fmt == "json":
-            json.dump(desc, fh)
-        else:
-            yaml.dump(desc, fh, sort_keys=False, allow_unicode=True)
+    write_description(desc, inp, fmt)
     old = os.getcwd()
     try:
         os.chdir(d)
